@@ -118,7 +118,7 @@ var _ = store.MAX_NUM_CHUNK
 
 func C17(job *Job, r *Report) {
 	r.Level = "model_checking"
-	r.Rule = "part (a): every store layout of 1..5 (thorough 6) data-file slots, each a gap / a full file / a half file (last slot a real file), x 5 first-record-timestamp patterns (all old, all recent, last recent, last two recent, first recent = non-monotone) x head {empty, one unflushed record, one flushed record}, built directly as data files (index files are rebuilt); on each: ALL (start,end) in [-1..7]^2 x no_gc_days {-1 (configured 2), 0, 1, 10000} x merge off/on with pretend=true (mutation log must stay empty), every refused tuple repeated with pretend=false (must be refused and change nothing), and one real pass per distinct (resolved range, merge, days) judged on the memfs mutation log by the property's own rules: no mutation of the head data file or later, nothing outside [start,end] except appends to a single earlier file, the next non-empty file after end older than the limit. part (b): two and three HStore.GC requests for one bucket from concurrent threads on a store where the range [0,1] is collectable; every interleaving at lock acquisitions, file-system calls and spawns with at most N preemptions (quick 2, thorough 3); a pass is in progress from the acceptance of its request until its goroutine has left gcMgr.gc (thread life observed by the scheduler); violation: two passes overlap, or a second request is accepted inside that window"
+	r.Rule = "part (a): every store layout of 1..5 (thorough 6) data-file slots, each a gap / a full file / a half file (last slot a real file), x 5 first-record-timestamp patterns (all old, all recent, last recent, last two recent, first recent = non-monotone) x head {empty, one unflushed record, one flushed record}, built directly as data files (index files are rebuilt); on each: ALL (start,end) in [-1..7]^2 x no_gc_days {-1 and -2 (both mean: the configured 2 days), 0, 1, 10000} x merge off/on with pretend=true (mutation log must stay empty), every refused tuple repeated with pretend=false (must be refused and change nothing), and one real pass per distinct (resolved range, merge, days) judged on the memfs mutation log by the property's own rules: no mutation of the head data file or later, nothing outside [start,end] except appends to a single earlier file, the next non-empty file after end older than the limit. part (b): two and three HStore.GC requests for one bucket from concurrent threads on a store where the range [0,1] is collectable; every interleaving at lock acquisitions, file-system calls and spawns with at most N preemptions (quick 2, thorough 3); a pass is in progress from the acceptance of its request until its goroutine has left gcMgr.gc (thread life observed by the scheduler); violation: two passes overlap, or a second request is accepted inside that window"
 	r.Assumptions = []string{"sequentially consistent interleavings at synchronisation/file-system granularity"}
 	pb := 2
 	if job.Tier != "quick" {
@@ -233,7 +233,7 @@ func c17aLayout(l gcLayoutSpec, r *Report) *Mismatch {
 		head = m.St.VerifNewHead(0)
 		fsAtReq = m.FS.Clone()
 		m.FS.StartLog()
-		for _, days := range []int{-1, 0, 1, 10000} {
+		for _, days := range []int{-1, -2, 0, 1, 10000} {
 			for st := -1; st <= 7; st++ {
 				for en := -1; en <= 7; en++ {
 					for _, mg := range []bool{false, true} {
